@@ -653,6 +653,161 @@ func checkLikeEscaping(r *Run, tp *packages.Package) {
 	}
 	if n == 0 {
 		r.Undecide("C01-R8: no LIKE-pattern escaper (strings.NewReplacer over %% / _) found in package translate")
+		return
+	}
+	// the escaper is for LIKE patterns only: a call to a function holding such a replacer, made in a switch case that
+	// also lists the regular-expression operator, must be conditional on the operator not being that one
+	escapers := map[*types.Func]bool{}
+	for _, f := range tp.Syntax {
+		for _, d := range f.Decls {
+			fd, ok := d.(*ast.FuncDecl)
+			if !ok || fd.Body == nil {
+				continue
+			}
+			holds := false
+			ast.Inspect(fd.Body, func(x ast.Node) bool {
+				if call, ok := x.(*ast.CallExpr); ok {
+					if fn := calleeOf(info, call); fn != nil && funcFullName(fn) == "strings.NewReplacer" {
+						for _, a := range call.Args {
+							if tv, has := info.Types[a]; has && tv.Value != nil && tv.Value.Kind() == constant.String && constant.StringVal(tv.Value) == "%" {
+								holds = true
+							}
+						}
+					}
+				}
+				return true
+			})
+			if holds {
+				if fn, ok := info.Defs[fd.Name].(*types.Func); ok {
+					escapers[fn] = true
+				}
+			}
+		}
+	}
+	sites := 0
+	for _, f := range tp.Syntax {
+		for _, d := range f.Decls {
+			fd, ok := d.(*ast.FuncDecl)
+			if !ok || fd.Body == nil {
+				continue
+			}
+			ast.Inspect(fd.Body, func(x ast.Node) bool {
+				cc, ok := x.(*ast.CaseClause)
+				if !ok {
+					return true
+				}
+				var regexConst types.Object
+				for _, e := range cc.List {
+					if sel, ok := ast.Unparen(e).(*ast.SelectorExpr); ok && strings.Contains(sel.Sel.Name, "Regex") {
+						regexConst = info.Uses[sel.Sel]
+					}
+				}
+				for _, st := range cc.Body {
+					ast.Inspect(st, func(y ast.Node) bool {
+						call, ok := y.(*ast.CallExpr)
+						if !ok {
+							return true
+						}
+						if fn := calleeOf(info, call); fn == nil || !escapers[fn] {
+							return true
+						}
+						sites++
+						construct := funcDeclName(fd) + ":like-escape-call"
+						if regexConst == nil {
+							r.Pass(rule, construct, call.Pos(), "the escaper is applied in a case of LIKE operators only")
+							return true
+						}
+						excluded := false
+						for _, l := range pathConditions(cc, call) {
+							ast.Inspect(l.Expr, func(k ast.Node) bool {
+								if be, ok := k.(*ast.BinaryExpr); ok {
+									for _, side := range []ast.Expr{be.X, be.Y} {
+										if sel, ok := ast.Unparen(side).(*ast.SelectorExpr); ok && info.Uses[sel.Sel] == regexConst {
+											if (be.Op == token.NEQ && !l.Neg) || (be.Op == token.EQL && l.Neg) {
+												excluded = true
+											}
+										}
+									}
+								}
+								return true
+							})
+						}
+						if excluded {
+							r.Pass(rule, construct, call.Pos(), "the case also handles the regular-expression operator, and the escaper is skipped for it")
+						} else {
+							r.Fail(rule, construct, call.Pos(), "the LIKE-pattern escaper is applied in a case that also handles %s: the backslashes of a regular expression are doubled, so `=~ '\\d+'` asks PostgreSQL for a literal backslash", regexConst.Name())
+						}
+						return true
+					})
+				}
+				return true
+			})
+		}
+	}
+	if sites == 0 {
+		r.Undecide("C01-R8: the LIKE-pattern escaper is never called from a switch case")
+	}
+	// the places that build the pattern itself ("%" + value, value + "%"): the value must have been escaped on every
+	// path that reaches them. The escaper runs upstream only where the left operand is a property lookup, so a pattern
+	// site is decided by whether the escaper is applied in its own case clause.
+	patternSites := 0
+	for _, f := range tp.Syntax {
+		for _, d := range f.Decls {
+			fd, ok := d.(*ast.FuncDecl)
+			if !ok || fd.Body == nil {
+				continue
+			}
+			ast.Inspect(fd.Body, func(x ast.Node) bool {
+				cc, ok := x.(*ast.CaseClause)
+				if !ok || len(cc.List) == 0 {
+					return true
+				}
+				label := ""
+				for _, e := range cc.List {
+					if sel, ok := ast.Unparen(e).(*ast.SelectorExpr); ok && strings.HasPrefix(sel.Sel.Name, "OperatorCypher") {
+						label = sel.Sel.Name
+					}
+				}
+				if label == "" {
+					return true
+				}
+				var concat *ast.BinaryExpr
+				escaped := false
+				for _, st := range cc.Body {
+					ast.Inspect(st, func(y ast.Node) bool {
+						switch t := y.(type) {
+						case *ast.BinaryExpr:
+							if t.Op == token.ADD && concat == nil {
+								for _, side := range []ast.Expr{t.X, t.Y} {
+									if tv, has := info.Types[side]; has && tv.Value != nil && tv.Value.Kind() == constant.String && constant.StringVal(tv.Value) == "%" {
+										concat = t
+									}
+								}
+							}
+						case *ast.CallExpr:
+							if fn := calleeOf(info, t); fn != nil && escapers[fn] {
+								escaped = true
+							}
+						}
+						return true
+					})
+				}
+				if concat == nil {
+					return true
+				}
+				patternSites++
+				construct := funcDeclName(fd) + ":like-pattern:" + label
+				if escaped {
+					r.Pass(rule, construct, concat.Pos(), "the literal is escaped where the pattern is built")
+				} else {
+					r.Fail(rule, construct, concat.Pos(), "the LIKE pattern for %s is built from the literal as it is; the escaper runs upstream only when the left operand is a bare property lookup, so behind any other expression (coalesce(n.name, '') contains 'a_b') the literal's %%, _ and \\ act as pattern syntax", label)
+				}
+				return false
+			})
+		}
+	}
+	if patternSites == 0 {
+		r.Undecide("C01-R8: no LIKE pattern construction (\"%%\" + literal) found in package translate")
 	}
 }
 
